@@ -156,6 +156,7 @@ type obCtx struct {
 
 func newOb(c *Ctx, r *Report, rule string, fn *ssa.Function) *obCtx {
 	c.curRoot = fn
+	c.bindParam = nil // bindings of an earlier analysis context do not apply here
 	if fn == nil {
 		return nil
 	}
